@@ -521,4 +521,154 @@ theorem popcount_wrapU (n : Nat) (x : Int) : popcount n (wrapU n x) = popcount n
   intro i hi
   rw [testBit_wrapU]; simp [List.mem_range.1 hi]
 
+/-! ### bit fields -/
+
+theorem getBits_eq_wrapU (x : Int) (lo len : Nat) : getBits x lo len = wrapU len (x / 2 ^ lo) := rfl
+
+theorem fitsU_getBits (x : Int) (lo len : Nat) : fitsU len (getBits x lo len) := fitsU_wrapU _ _
+
+theorem testBit_getBits (x : Int) (lo len i : Nat) :
+    testBit (getBits x lo len) i = (decide (i < len) && testBit x (i + lo)) := by
+  rw [getBits_eq_wrapU, testBit_wrapU, testBit_div_pow]
+
+/-- the master lemma: inside the field the bits are those of `f`, outside those of `x` -/
+theorem testBit_setBits (x : Int) (lo len : Nat) (f : Int) (i : Nat) :
+    testBit (setBits x lo len f) i = if lo ≤ i ∧ i < lo + len then testBit f (i - lo) else testBit x i := by
+  unfold setBits
+  by_cases hlo : i < lo
+  · rw [testBit_add_mul_pow _ _ hlo, if_neg (by omega)]
+  · obtain ⟨j, rfl⟩ : ∃ j, i = j + lo := ⟨i - lo, by omega⟩
+    rw [← testBit_div_pow, Int.add_mul_ediv_right _ _ (pow_ne lo)]
+    have hy := Int.emod_add_mul_ediv (x / 2 ^ lo) (2 ^ len)
+    have e : x / 2 ^ lo + (f % 2 ^ len - getBits x lo len) = wrapU len f + (x / 2 ^ lo / 2 ^ len) * 2 ^ len := by
+      unfold getBits wrapU; linarith
+    rw [e]
+    by_cases hj : j < len
+    · rw [testBit_add_mul_pow _ _ hj, testBit_wrapU, if_pos (by omega)]
+      have : j + lo - lo = j := by omega
+      simp [hj, this]
+    · rw [if_neg (by omega)]
+      obtain ⟨d, rfl⟩ : ∃ d, j = d + len := ⟨j - len, by omega⟩
+      rw [← testBit_div_pow, Int.add_mul_ediv_right _ _ (pow_ne len),
+        Int.ediv_eq_zero_of_lt (wrapU_nonneg len f) (wrapU_lt len f), Int.zero_add,
+        testBit_div_pow, testBit_div_pow]
+
+theorem getBits_setBits_same (x : Int) (lo len : Nat) (f : Int) :
+    getBits (setBits x lo len f) lo len = wrapU len f := by
+  apply eq_of_testBit_eq; intro i
+  rw [testBit_getBits, testBit_setBits, testBit_wrapU]
+  by_cases hi : i < len
+  · have : i + lo - lo = i := by omega
+    simp [hi, this]; omega
+  · simp [hi]
+
+/-- writing a field does not disturb a disjoint field -/
+theorem getBits_setBits_disjoint (x : Int) (lo len : Nat) (f : Int) (lo' len' : Nat)
+    (h : lo' + len' ≤ lo ∨ lo + len ≤ lo') :
+    getBits (setBits x lo len f) lo' len' = getBits x lo' len' := by
+  apply eq_of_testBit_eq; intro i
+  rw [testBit_getBits, testBit_getBits, testBit_setBits]
+  by_cases hi : i < len'
+  · rw [if_neg (by omega)]
+  · simp [hi]
+
+theorem setBits_getBits (x : Int) (lo len : Nat) : setBits x lo len (getBits x lo len) = x := by
+  apply eq_of_testBit_eq; intro i
+  rw [testBit_setBits]
+  split
+  · rename_i h
+    rw [testBit_getBits]
+    have : i - lo + lo = i := by omega
+    simp [this]; omega
+  · rfl
+
+theorem setBits_setBits_same (x : Int) (lo len : Nat) (f g : Int) :
+    setBits (setBits x lo len f) lo len g = setBits x lo len g := by
+  apply eq_of_testBit_eq; intro i
+  rw [testBit_setBits, testBit_setBits, testBit_setBits]
+  split <;> rfl
+
+/-- writes to disjoint fields commute -/
+theorem setBits_comm (x : Int) (lo len : Nat) (f : Int) (lo' len' : Nat) (g : Int)
+    (h : lo' + len' ≤ lo ∨ lo + len ≤ lo') :
+    setBits (setBits x lo len f) lo' len' g = setBits (setBits x lo' len' g) lo len f := by
+  apply eq_of_testBit_eq; intro i
+  rw [testBit_setBits, testBit_setBits, testBit_setBits, testBit_setBits]
+  by_cases h1 : lo ≤ i ∧ i < lo + len
+  · rw [if_pos h1, if_neg (by omega), if_pos h1]
+  · rw [if_neg h1, if_neg h1]
+
+/-- only the low `len` bits of the written value matter -/
+theorem setBits_wrapU (x : Int) (lo len : Nat) (f : Int) : setBits x lo len (wrapU len f) = setBits x lo len f := by
+  unfold setBits; rw [← wrapU, ← wrapU, wrapU_idem]
+
+/-! ### bytes -/
+
+theorem toBytesLE_length (k : Nat) : ∀ x : Int, (toBytesLE k x).length = k := by
+  induction k with
+  | zero => intro x; rfl
+  | succ k ih => intro x; simp [toBytesLE, ih]
+
+theorem toBytesLE_lt (k : Nat) : ∀ (x : Int) (b : Nat), b ∈ toBytesLE k x → b < 256 := by
+  induction k with
+  | zero => intro x b h; simp [toBytesLE] at h
+  | succ k ih =>
+    intro x b h
+    simp only [toBytesLE, List.mem_cons] at h
+    rcases h with h | h
+    · subst h; omega
+    · exact ih _ b h
+
+/-- the `k` low bytes denote `x mod 2^(8k)` -/
+theorem fromBytesLE_toBytesLE (k : Nat) : ∀ x : Int, fromBytesLE (toBytesLE k x) = wrapU (8 * k) x := by
+  induction k with
+  | zero => intro x; simp [toBytesLE, fromBytesLE, wrapU, Int.emod_one]
+  | succ k ih =>
+    intro x
+    simp only [toBytesLE, fromBytesLE]
+    rw [ih]
+    unfold wrapU
+    have e : (2 : Int) ^ (8 * (k + 1)) = 256 * 2 ^ (8 * k) := by
+      have : 8 * (k + 1) = 8 + 8 * k := by ring
+      rw [this, pow_split]; norm_num
+    rw [e, emod_mul x 256 (2 ^ (8 * k)) (by decide) (pow_pos _)]
+    have : ((x % 256).toNat : Int) = x % 256 := Int.toNat_of_nonneg (Int.emod_nonneg _ (by decide))
+    rw [this]
+
+theorem toBytesLE_fromBytesLE : ∀ (bs : List Nat), (∀ b, b ∈ bs → b < 256) →
+    toBytesLE bs.length (fromBytesLE bs) = bs := by
+  intro bs
+  induction bs with
+  | nil => intro _; rfl
+  | cons b bs ih =>
+    intro h
+    have hb := h b (List.mem_cons_self ..)
+    simp only [List.length_cons, toBytesLE, fromBytesLE]
+    have e1 : (((b : Int) + 256 * fromBytesLE bs) % 256).toNat = b := by omega
+    have e2 : ((b : Int) + 256 * fromBytesLE bs) / 256 = fromBytesLE bs := by omega
+    rw [e1, e2, ih (fun c hc => h c (List.mem_cons_of_mem _ hc))]
+
+theorem toBytesBE_length (k : Nat) (x : Int) : (toBytesBE k x).length = k := by
+  simp [toBytesBE, toBytesLE_length]
+
+theorem fromBytesBE_toBytesBE (k : Nat) (x : Int) : fromBytesBE (toBytesBE k x) = wrapU (8 * k) x := by
+  simp [fromBytesBE, toBytesBE, fromBytesLE_toBytesLE]
+
+theorem toBytesBE_fromBytesBE (bs : List Nat) (h : ∀ b, b ∈ bs → b < 256) :
+    toBytesBE bs.length (fromBytesBE bs) = bs := by
+  unfold toBytesBE fromBytesBE
+  have := toBytesLE_fromBytesLE bs.reverse (fun b hb => h b (List.mem_reverse.1 hb))
+  rw [List.length_reverse] at this
+  rw [this, List.reverse_reverse]
+
+/-- two numbers with the same `k` low bytes agree modulo `2^(8k)` -/
+theorem toBytesLE_eq_iff (k : Nat) (x y : Int) : toBytesLE k x = toBytesLE k y ↔ wrapU (8 * k) x = wrapU (8 * k) y := by
+  constructor
+  · intro h; rw [← fromBytesLE_toBytesLE, ← fromBytesLE_toBytesLE, h]
+  · intro h
+    have hx := toBytesLE_fromBytesLE (toBytesLE k x) (toBytesLE_lt k x)
+    have hy := toBytesLE_fromBytesLE (toBytesLE k y) (toBytesLE_lt k y)
+    rw [toBytesLE_length, fromBytesLE_toBytesLE] at hx hy
+    rw [← hx, ← hy, h]
+
 end Proofs.Bits
